@@ -32,20 +32,43 @@ class Boom(Exception):
     pass
 
 
+_SOA = {}
+
+
 def soa_rdata(serial):
-    return dns.rdata.from_text(IN, SOA, "ns1.other. admin.other. %d 3600 600 86400 300" % serial)
+    rd = _SOA.get(serial)
+    if rd is None:
+        rd = _SOA[serial] = dns.rdata.from_text(IN, SOA, "ns1.other. admin.other. %d 3600 600 86400 300" % serial)
+    return rd
 
 
 NS_RDATA = dns.rdata.from_text(IN, NS, "ns1.other.")
 
 
+_A = {}
+_A_REV = {}
+for _k in range(1, 10):
+    _A[_k] = dns.rdata.from_text(IN, A, "10.0.0.%d" % _k)
+    _A_REV[_A[_k]] = _k
+
+
 def a_rdata(k):
-    return dns.rdata.from_text(IN, A, "10.0.0.%d" % k)
+    return _A[k]
+
+
+_OWNER = {}
 
 
 def owner(n, relativize):
-    rel = dns.name.empty if n == "@" else dns.name.from_text(n, None)
-    return rel if relativize else rel.derelativize(ORIGIN)
+    key = (n, relativize)
+    nm = _OWNER.get(key)
+    if nm is None:
+        rel = dns.name.empty if n == "@" else dns.name.from_text(n, None)
+        nm = rel if relativize else rel.derelativize(ORIGIN)
+        _OWNER[key] = nm
+    return nm
+
+
 
 
 def name_text(name, relativize):
@@ -94,11 +117,7 @@ def abstract(pairs, relativize):
             seen_ns = True
         elif n in NAMES and rds.rdtype == A and len(rds) > 0:
             for rd in rds:
-                k = -1
-                for cand in range(1, 10):
-                    if rd == a_rdata(cand):
-                        k = cand
-                items.append([n, k])
+                items.append([n, _A_REV.get(rd, -1)])
         else:
             items.append(["?%s/%s/%d" % (n, ty, len(rds)), 0])
     if serial != 0 and not seen_ns:
